@@ -60,7 +60,7 @@ def jobs(tier, seed):
     # larger grids "randomly" (as the property's quantifier says): seeded dense base mazes (edge density 0.7: many cycles) with 4 connection bits left
     # symbolic (16 mazes per instance), far-apart and mid-range endpoint pairs
     rngb = np.random.default_rng(seed * 7 + 11)
-    for (r, c), nb in ([((4, 3), 3), ((4, 4), 5), ((5, 5), 8), ((3, 5), 2), ((6, 6), 4)] if tier == "quick" else [((4, 3), 6), ((3, 4), 6), ((4, 4), 16), ((5, 5), 24), ((3, 5), 6), ((6, 6), 12), ((8, 8), 6), ((2, 9), 4)]):
+    for (r, c), nb in ([((4, 3), 3), ((4, 4), 5), ((5, 5), 8), ((3, 5), 2), ((6, 6), 4), ((2, 8), 5), ((2, 11), 3), ((3, 9), 3), ((9, 2), 2)] if tier == "quick" else [((4, 3), 6), ((3, 4), 6), ((4, 4), 16), ((5, 5), 24), ((3, 5), 6), ((6, 6), 12), ((8, 8), 6), ((2, 9), 4)]):
         edges = [(0, i, j) for i in range(r - 1) for j in range(c)] + [(1, i, j) for i in range(r) for j in range(c - 1)]
         cells = [(i, j) for i in range(r) for j in range(c)]
         for b in range(nb):
@@ -376,7 +376,7 @@ META = dict(
                "LatticeMaze.heuristic", "SolvedMaze.from_targeted_lattice_maze", "TargetedLatticeMaze.__post_init__",
                "SolvedMaze.__init__"],
     bounds=dict(
-        quick="all connection structures (every bit symbolic) on all grids r x c with r*c <= 6 and all ordered (start,end) pairs; 3x3 with 12 pairs; larger grids around seeded dense base mazes with 4 symbolic bits and 6 endpoint pairs each (4x3: 3 bases, 4x4: 5, 5x5: 8, 3x5: 2, 6x6: 4); "
+        quick="all connection structures (every bit symbolic) on all grids r x c with r*c <= 6 and all ordered (start,end) pairs; 3x3 with 12 pairs; larger grids around seeded dense base mazes with 4 symbolic bits and 6 endpoint pairs each (4x3: 3 bases, 4x4: 5, 5x5: 8, 3x5: 2, 6x6: 4, 2x8: 5, 2x11: 3, 3x9: 3, 9x2: 2); "
               "mazes carrying accurate generation metadata (a recorded component of 1-3 cells, queries among the other cells; all other bits symbolic); histories of queries on one maze object (two from the same start; on 2x3 also the reverse and a repeat) on 2x3, 2x4 and 3x3 (18 seeded histories)",
         thorough="as quick (query histories: 40 on 3x3, 28 on 2x3 / 2x4), plus 3x3 all 81 pairs, seeded dense bases up to 8x8 and 2x9, 2x8 (all 2^22 mazes) for the pair (0,7)->(1,0), solve_targeted on 3x3 all pairs",
     ),
